@@ -328,15 +328,17 @@ def beyond(x, near):
     return x > EPS
 
 
-def oracle_report(s, ds):
-    """returns (set of (block id, slot, field, kind), near-threshold notes).  s: system as Fractions; ds: decoded blocks."""
+def oracle_report(s, ds, raster_on_stored=False):
+    """returns (list of (block id, slot, field, kind), near-threshold notes).  s: system as Fractions; ds: decoded blocks.
+    raster_on_stored: which reading of "block duration on the block raster" the source under test implements (the
+    duration of the decoded block, or the stored duration in the repaired source)"""
     rep, near = [], []
     for d in ds:
         bid = d['id']
         content = content_end(d)
         stored = d['stored']
         full = max(stored, content)                       # "block duration": the stored delay or the latest event end
-        if off_raster(full, s['block'], near):
+        if off_raster(stored if raster_on_stored else full, s['block'], near):
             rep.append((bid, 'block', 'duration', 'RASTER'))
         mism = beyond(content - stored, near)             # the stored duration does not cover the content
         if mism:
